@@ -324,14 +324,14 @@ def run_shard(tier, seed, shard, nshards, res):
         for i in range(60 if tier == 'quick' else 600):
             rng = common.rng_for(seed, 'c04c', shard, i)
             concurrent(dc, sc, res, rng, 'c04 concurrent seed=%d shard=%d i=%d' % (seed, shard, i))
-            if res.counters.get('violations_raw', 0) > 10:
+            if res.new_violations() > 10:
                 return
         # "never pulled as a live item" while calls are in flight: the timed queue histories of C10, judged here too
         from . import c10 as queues
         for i in range(40 if tier == 'quick' else 500):
             rng = common.rng_for(seed, 'c04t', shard, i)
             queues.timed_schedule(dc, sc, res, rng, 'c04 timed queue schedule seed=%d shard=%d i=%d' % (seed, shard, i))
-            if res.counters.get('violations_raw', 0) > 10:
+            if res.new_violations() > 10:
                 return
     with common.Scratch() as sc:
         for i in range(n):
@@ -346,5 +346,5 @@ def run_shard(tier, seed, shard, nshards, res):
             history(dc, sc, res, rng, kind, cfg, label, scale=0.6)
             if len(res.samples) < 2:
                 res.sample({'label': label, 'config': cfg})
-            if res.counters.get('violations_raw', 0) > 10:
+            if res.new_violations() > 10:
                 return
